@@ -137,6 +137,17 @@ def broken_typed():
     return BrokenTyped()
 
 
+def broken_header():
+    """an unencodable message whose *header* is at fault (an identifier that is not an integer: it cannot be packed -- nor
+    formatted as hex by whatever wants to print it); an instance of `Broken` for the harness"""
+    class BrokenHeader(Broken):
+        def __init__(self):
+            Message.__init__(self)
+            self.header.command_code = 280
+            self.header.end_to_end_identifier = "4098"
+    return BrokenHeader()
+
+
 def make_other(i: int) -> Message:
     """an application request (not a watchdog message)"""
     return Message.from_bytes(simmod.build_msg(nodegen.ccr(7100 + i, 8100 + i, "node.local")))
